@@ -20,7 +20,10 @@ use proptest::{
 use serde::{Serialize, de::DeserializeOwned};
 use serde_json::{Value, json};
 
-pub const VERIF_ROOT: &str = "/verif";
+/// Root directory for evidence/, replays/, regressions/, known_findings.json.
+pub fn verif_root() -> PathBuf {
+    PathBuf::from(std::env::var("VERIF_ROOT").unwrap_or_else(|_| "/verif".to_string()))
+}
 
 #[derive(Debug, Clone, Copy, PartialEq, Eq)]
 pub enum Tier {
@@ -197,7 +200,7 @@ impl Ctx {
         strict: bool,
     ) -> Self {
         let known: Vec<KnownFinding> =
-            match std::fs::read(Path::new(VERIF_ROOT).join("known_findings.json")) {
+            match std::fs::read(verif_root().join("known_findings.json")) {
                 Ok(b) => {
                     let v: Value = serde_json::from_slice(&b).expect("known_findings.json parses");
                     serde_json::from_value(v["findings"].clone()).expect("findings list")
@@ -410,7 +413,7 @@ impl Ctx {
         part: &str,
         f: &dyn Fn(&C) -> Outcome,
     ) {
-        let dir = Path::new(VERIF_ROOT)
+        let dir = verif_root()
             .join("regressions")
             .join(self.property);
         let Ok(rd) = std::fs::read_dir(&dir) else {
@@ -697,7 +700,7 @@ impl Ctx {
             "violations": violations.len(),
         });
         if self.replay.is_none() {
-            let dir = Path::new(VERIF_ROOT).join("evidence");
+            let dir = verif_root().join("evidence");
             let _ = std::fs::create_dir_all(&dir);
             let path = dir.join(format!("{}.json", self.property));
             if let Err(e) = std::fs::write(&path, serde_json::to_vec_pretty(&evidence).unwrap()) {
@@ -730,7 +733,7 @@ impl Ctx {
             let path = if self.replay.is_some() {
                 PathBuf::from("(replayed)")
             } else {
-                let dir = Path::new(VERIF_ROOT).join("replays");
+                let dir = verif_root().join("replays");
                 let _ = std::fs::create_dir_all(&dir);
                 let p = dir.join(format!(
                     "{}-{:016x}.json",
